@@ -57,7 +57,9 @@ FirstKeys(c, n) == [i \in 1..n |-> Key(c, i)]
 ClsB(rot) == IF Full THEN ClsOf(rot) ELSE ClsOf(rot) \cap {"rsa2048", "p256", "p384", "p521"}
 SweepB == UNION {UNION {UNION {UNION {{Case(rot, FirstKeys(c, n), v, path, IF UsesUsed(path) THEN ((n + 1) \div 2) ELSE 0) : v \in Vectors(rot, path, n)}
                                       : path \in Paths(rot)} : n \in NB(rot)} : c \in ClsB(rot)} : rot \in RotTypes}
-Cases == {c \in SweepA \cup SweepB : Legal(c)}
+\* quick tier: the tool paths that open an RSA PRIVATE key (signature provider) run with RSA-2048 only (loading is 0.1 - 0.4 s per key)
+Cheap(c) == Full \/ c.path \notin {"dc", "certblock_cfg"} \/ \A i \in 1..Len(c.keys) : c.keys[i].cls \notin {"rsa3072", "rsa4096"}
+Cases == {c \in SweepA \cup SweepB : Legal(c) /\ Cheap(c)}
 
 \* ---------------------------------------------------------------- initial states
 CaseInit == /\ mode = "case" /\ scen = 0 /\ done = FALSE /\ Init
